@@ -96,7 +96,9 @@ class Operand:
 
     @property
     def const_item(self):
-        return self.j.get("item") if self.kind == "const" else None
+        if self.kind != "const" or self.j.get("promoted"):
+            return None  # a promoted temporary (`&0`) is not a named constant item
+        return self.j.get("item")
 
     @property
     def const_fn(self):
@@ -108,7 +110,7 @@ class Operand:
 
     def __repr__(self):
         if self.kind == "const":
-            if "item" in self.j:
+            if "item" in self.j and not self.j.get("promoted"):
                 return "const %s" % self.j["item"]
             if "scalar" in self.j:
                 return "const %s" % (self.j["scalar"],)
